@@ -147,6 +147,24 @@ class C17(Prop):
             out.append({"property": self.id, "invalid": kind,
                         "world": {"stack": "retrying_stub", "retry_kwargs": rk, "script": []},
                         "steps": [{"t": "call", "m": "op", "a": [], "k": {}}]})
+        # histories: several calls through ONE RetryingClient; every call has its own budget of attempts
+        for _ in range(3):
+            attempts = rng.randint(1, 4)
+            rf, dn = rng.randrange(16), rng.randrange(16)
+            dn &= ~rf
+            ncalls = rng.randint(2, 4)
+            script = []
+            for _c in range(ncalls):
+                script.extend(rng.choice(sequences(attempts)))
+            rk = {"attempts": attempts, "retry_delay": rng.choice([0, 0.25, 2])}
+            if rf or rng.random() < 0.5:
+                rk["retry_for"] = self.spell(rng, SUBSETS[rf])
+            if dn or rng.random() < 0.5:
+                rk["do_not_retry_for"] = self.spell(rng, SUBSETS[dn])
+            out.append({"property": self.id, "history": {"attempts": attempts, "rf": rf, "dn": dn},
+                        "world": {"stack": "retrying_stub", "retry_kwargs": rk, "script": script,
+                                  "stub_inherits": rng.random() < 0.3},
+                        "steps": [{"t": "call", "m": "op", "a": [E(b"k%d" % j)], "k": {}} for j in range(ncalls)]})
         # end-to-end: real Client, first k attempts fail by injected faults
         for _ in range(2):
             attempts = rng.randint(1, 4)
@@ -211,6 +229,8 @@ class C17(Prop):
             elif w.clock.slept != [delay] * (inv - 1):
                 out.append(viol("sleep-log-wrong", rec, disc="e2e", slept=w.clock.slept, expected=[delay] * (inv - 1)))
             return out
+        if "history" in scn:
+            return self.judge_history(scn, res, delay)
         rec = res.by_step(0)
         stub = w.stub
         seq = scn["world"]["script"]
@@ -256,7 +276,43 @@ class C17(Prop):
                 break
         return out
 
+    def judge_history(self, scn, res, delay):
+        """Several calls on one wrapper: the reference is applied call by call to the part of the script that
+        call should consume; a call that consumed more or fewer invocations shifts everything after it."""
+        out = []
+        h = scn["history"]
+        stub = res.world.stub
+        script = list(scn["world"]["script"])
+        pos = 0
+        sleeps_total = 0
+        for rec in res.calls:
+            if rec.step < 0:
+                continue
+            seq = (script[pos:pos + h["attempts"]] + ["ok"] * h["attempts"])[:h["attempts"]]
+            inv, oi, sleeps = reference(h["attempts"], seq, SUBSETS[h["rf"]], SUBSETS[h["dn"]])
+            want_ok = seq[oi] == "ok"
+            produced = stub.produced[pos + oi] if pos + oi < len(stub.produced) else None
+            if want_ok:
+                bad = rec.outcome != "return" or rec.value is not produced
+            else:
+                bad = rec.outcome != "raise" or rec.exc is not produced
+            if bad:
+                out.append(viol("later-call-on-same-wrapper-retried-wrongly", rec, disc="call-%d" % rec.step,
+                                expected_invocations=inv, expected=seq[oi], got=rec.enc_outcome(),
+                                consumed_so_far=pos, cfg=h))
+                return out
+            pos += inv
+            sleeps_total += sleeps
+        if len(stub.calls) != pos:
+            out.append(viol("invocation-count-wrong", res.calls[-1], disc="history", expected=pos, got=len(stub.calls)))
+        elif res.world.clock.slept != [delay] * sleeps_total:
+            out.append(viol("sleep-log-wrong", res.calls[-1], disc="history", slept=res.world.clock.slept,
+                            expected=[delay] * sleeps_total))
+        return out
+
     def trace_key(self, scn, res):
+        if "history" in scn:
+            return ("history", codec.canon(scn["history"]), tuple(scn["world"]["script"])), True
         if "cell" in scn:
             return ("cell", scn["cell"]), ("ok" != scn["world"]["script"][0])
         if "invalid" in scn:
@@ -269,7 +325,7 @@ class C17(Prop):
     def probe_names(self):
         return ("retried-subclass-via-base-in-retry_for", "blocked-by-do_not_retry_for", "sleep-between-attempts",
                 "last-attempt-failed-no-sleep-after", "invalid-config-rejected", "end-to-end-retry-after-socket-fault",
-                "set-spelling", "magic-method-path")
+                "set-spelling", "magic-method-path", "call-after-a-call-that-exhausted-its-attempts")
 
     def probes(self, scn, res):
         p = {}
@@ -279,6 +335,10 @@ class C17(Prop):
         if "e2e" in scn:
             if scn["e2e"]["kfail"] and len(res.world.clock.slept):
                 p["end-to-end-retry-after-socket-fault"] = 1
+            return p
+        if "history" in scn:
+            if any(c.outcome == "raise" for c in res.calls[:-1]):
+                p["call-after-a-call-that-exhausted-its-attempts"] = 1
             return p
         tab = table()
         attempts, seq, rf, dn = tab[scn["cell"]]
